@@ -54,6 +54,7 @@ func main() {
 		os.Exit(3)
 	}
 	loadS := time.Since(start).Seconds()
+	verifRoot = *verif
 	switch cmd {
 	case "list":
 		for _, k := range eng.cf.Order {
